@@ -112,3 +112,52 @@ def crc32_id_pairs(prefixes=("", "ramp", "s"), n=6):
             assert zlib.crc32((pre + other).encode()) == want and len(other) == len(a) and other != a
             out.append((pre, a, other))
     return out
+
+
+# ---------------------------------------------------------------- birthday pairs for arbitrary 32-bit fingerprints
+def _fingerprints():
+    import hashlib
+
+    return {
+        "md5-first32": lambda b: hashlib.md5(b).digest()[:4],
+        "md5-last32": lambda b: hashlib.md5(b).digest()[-4:],
+        "sha1-first32": lambda b: hashlib.sha1(b).digest()[:4],
+        "sha256-first32": lambda b: hashlib.sha256(b).digest()[:4],
+        "adler32": lambda b: zlib.adler32(b).to_bytes(4, "big"),
+        "crc32": lambda b: zlib.crc32(b).to_bytes(4, "big"),
+        "len+sum16": lambda b: (len(b) & 0xFFFF).to_bytes(2, "big") + (sum(b) & 0xFFFF).to_bytes(2, "big"),
+        "python-hash-like (FNV-1a 32)": lambda b: _fnv1a(b),
+    }
+
+
+def _fnv1a(b):
+    h = 0x811C9DC5
+    for c in b:
+        h = ((h ^ c) * 0x01000193) & 0xFFFFFFFF
+    return h.to_bytes(4, "big")
+
+
+def birthday_pair(fp, body_a: str, body_b: str, limit=400000):
+    """(text_a, text_b): body + ' // <tag>' variants with fp(text_a) == fp(text_b); deterministic search"""
+    seen = {}
+    for n in range(limit):
+        tag = format(n, "x")
+        ta = (body_a + " // r" + tag)
+        seen.setdefault(fp(ta.encode()), ta)
+    for n in range(limit):
+        tb = (body_b + " // q" + format(n, "x"))
+        hit = seen.get(fp(tb.encode()))
+        if hit is not None:
+            return hit, tb
+    return None
+
+
+def birthday_pairs(valid_body: str, other_bodies: dict, limit=300000):
+    """name -> (current valid text, colliding other text) for every fingerprint x other body"""
+    out = {}
+    for fname, fp in _fingerprints().items():
+        for oname, body in other_bodies.items():
+            p = birthday_pair(fp, valid_body, body, limit)
+            if p:
+                out[f"{fname}/{oname}"] = p
+    return out
